@@ -1,7 +1,7 @@
 (* ColStoreCheck.v — executable comparison of the column-store model with observations of
    the real writer / readers (used by the generated case files of C01). *)
 From Coq Require Import Uint63.
-From SigM Require Import Base Tlv TsEnc ColStore.
+From SigM Require Import Base Tlv TsEnc ColStore ReaderReuse.
 Open Scope N_scope.
 
 (* byte strings in the generated case files: 7 bytes per primitive integer, little-endian
@@ -57,10 +57,19 @@ Record colobs := mkco {
 }.
 Definition co_post (o : colobs) : bytes := match co_post_o o with Some b => b | None => co_pre o end.
 Definition co_payload (o : colobs) : bytes := match co_payload_o o with Some b => b | None => co_post o end.
+(* the records are mostly consecutive (raw blocks): the walk keeps its position and re-scans the payload only when
+   a record does not start where the previous one ended *)
+Fixpoint slices_from (full : bytes) (pos : N) (cur : bytes) (l : list (N * N)) : list bytes :=
+  match l with
+  | [] => []
+  | (off, len) :: r =>
+    let src := if off =? pos then cur else skipn (N.to_nat off) full in
+    firstn (N.to_nat len) src :: slices_from full (off + len) (skipn (N.to_nat len) src) r
+  end.
 Definition slices (payload : bytes) (ps : option (list (N * N))) : option (list bytes) :=
   match ps with
   | None => None
-  | Some l => Some (map (fun p => firstn (N.to_nat (snd p)) (skipn (N.to_nat (fst p)) payload)) l)
+  | Some l => Some (slices_from payload 0 payload l)
   end.
 Definition co_recs (o : colobs) := slices (co_payload o) (co_recs_p o).
 Definition co_recs_sc (o : colobs) := slices (co_payload o) (co_recs_sc_p o).
@@ -269,5 +278,45 @@ Definition check_e2e (ops : list sop) (obs : list (N * fields)) : list nat :=
   end.
 
 End Check.
+
+(* ---------- one reader set over a sequence of blocks (ReaderReuse.v) ---------- *)
+Definition opt_ts_eqb (a b : option (list N)) : bool :=
+  match a, b with
+  | Some x, Some y => list_eqb N.eqb x y
+  | None, None => true
+  | _, _ => false
+  end.
+
+(* positions at which model and observation differ; the model's list may end early (reader no longer followed) *)
+Fixpoint cmp_seq {A B} (eqb : A -> B -> bool) (i : nat) (m : list A) (o : list B) : list nat :=
+  match m, o with
+  | a :: m', b :: o' => (if eqb a b then [] else [i]) ++ cmp_seq eqb (S i) m' o'
+  | _, _ => []
+  end.
+
+(* (record count, timestamp block on disk, what the real TimeRangeReader returned), in the order read *)
+Definition check_reuse_ts (reqs : list (nat * bytes * option (list N))) : list nat :=
+  cmp_seq opt_ts_eqb 0 (trr_read_seq [] (map (fun r => (fst (fst r), snd (fst r))) reqs)) (map snd reqs).
+
+(* (record count, encoding byte, payload, records of the real SegmentFileReader as (offset, length), compare?)
+   compare = false: the block takes part in the sequence (reader state) but its records are not compared
+   (very large blocks; the Go oracle compares them with a fresh reader's) *)
+Definition reuse_rec_eqb (m : option (list bytes)) (o : bool * bytes * option (list (N * N))) : bool :=
+  let '(cmp, pl, ps) := o in
+  if cmp then opt_recs_eqb m (slices pl ps) else true.
+Definition check_reuse_col (reqs : list (nat * N * bytes * option (list (N * N)) * bool)) : list nat :=
+  cmp_seq reuse_rec_eqb 0
+    (sfr_read_seq INCONSISTENT (Some []) (map (fun r => let '(n, enc, pl, _, _) := r in (n, (enc, pl))) reqs))
+    (map (fun r => let '(_, _, pl, o, cmp) := r in (cmp, pl, o)) reqs).
+
+Fixpoint check_reuse_cols (ci : nat) (cols : list (list (nat * N * bytes * option (list (N * N)) * bool))) : list nat :=
+  match cols with
+  | [] => []
+  | c :: r => map (fun x => (20 + 20 * ci + x)%nat) (check_reuse_col c) ++ check_reuse_cols (S ci) r
+  end.
+
+Definition check_reuse (ts : list (nat * bytes * option (list N)))
+    (cols : list (list (nat * N * bytes * option (list (N * N)) * bool))) : list nat :=
+  check_reuse_ts ts ++ check_reuse_cols 0 cols.
 
 Definition mkev (t : N) (f : fields) : event := {| ev_ts := t; ev_fields := f |}.
